@@ -16,7 +16,7 @@ def transcript_of(prog):
         m.reset()
         m.transcript.clear(); m.queries.clear()
         for op in prog:
-            if op["op"] in ("cmptree", "refcheck"):
+            if op["op"] in ("cmptree", "refcheck", "chdir"):
                 m.cmd("dump" if op["op"] == "cmptree" else "list")
                 if op["op"] == "cmptree":
                     m.cmd("list")
